@@ -44,6 +44,7 @@ def funcByName : String → Option FuncSig
   | "blen" => some (.simple [(.field, .array .bool)] [] .int 9)
   | "len2" => some (.simple [(.field, .bytes)] [(.both, .bytes [])] .int 10)
   | "nil0" => some (.simple [] [] .bool 11)
+  | "when" => some (.simple [(.field, .bool), (.field, .bytes)] [] .bytes 12)
   | "concat" => some .concat
   | "ctxfn" => some .ctxCounter
   | _ => none
@@ -75,6 +76,34 @@ def parseItems {α} (f : String → Option α) (sep : Char) (s : String) : Optio
 
 def setNth {α} (l : List α) (i : Nat) (a : α) : List α :=
   l.zipIdx.map fun (x, j) => if j = i then a else x
+
+/-- a context without values and with empty matchers -/
+def freshCtx (st : St) : Ctx :=
+  { values := List.replicate st.env.scheme.fields.length none,
+    lists := st.env.scheme.lists.map fun (_, k) => { kind := k, sets := [] } }
+
+/-- `sets.entry(name).or_default().extend(members)` of the harness matcher -/
+def addMembers (sets : List (List Char × List Val)) (nm : List Char) (vs : List Val) :
+    List (List Char × List Val) :=
+  if sets.any (fun e => e.1 == nm) then sets.map fun e => if e.1 == nm then (e.1, e.2 ++ vs) else e
+  else sets ++ [(nm, vs)]
+
+/-- the entries of a `ctx` / `ctxmut set` line applied on top of `onto` -/
+def parseCtxOnto (onto : Ctx) (vals lists : String) : Option Ctx := do
+  let entries ← parseItems (fun e => match splitOnChar e '~' with
+    | [i, v] => do pure ((← parseNat? i), (← parseVal v))
+    | _ => none) '|' vals
+  let values := entries.foldl (fun acc (i, v) => setNth acc i (some v)) onto.values
+  let lentries ← parseItems (fun e => match splitOnChar e '~' with
+    | [i, nm, vs] => do
+      let i ← parseNat? i
+      let nm ← hexText nm
+      let vs ← parseItems parseVal '^' vs
+      pure (i, nm, vs)
+    | _ => none) '|' lists
+  let ls := lentries.foldl (fun acc (i, nm, vs) =>
+    acc.zipIdx.map fun (l, j) => if j = i then { l with sets := addMembers l.sets nm vs } else l) onto.lists
+  pure { values := values, lists := ls }
 
 def parseCtx (st : St) (vals lists : String) : Option Ctx := do
   let n := st.env.scheme.fields.length
@@ -140,6 +169,10 @@ def step (st : St) : List String → Option (St × String)
     pure (st', "ok")
   | ["ctx", vals, lists] => do
     let c ← parseCtx st vals lists
+    pure ({ st with ctx := c }, "ok")
+  | ["ctxmut", "clear"] => pure ({ st with ctx := freshCtx st }, "ok")
+  | ["ctxmut", "set", vals, lists] => do
+    let c ← parseCtxOnto st.ctx vals lists
     pure ({ st with ctx := c }, "ok")
   | ["parse", h] => do
     let txt ← hexText h
